@@ -985,7 +985,9 @@ def _fwb_lines(inp, desc, sig, pre, rec, ofnr, ofpr, fb, gb):
                           vm1=q(vm[1]), fP=ql(fP), gP=ql(gP), fM=ql(fM), gM=ql(gM), **_band_kw("fblo", "fbhi", fb),
                           **_band_kw("gblo", "gbhi", gb), eps=q(FWB_EPS)))
         roles.append(("fwband", {"radii": radii, "odelta": odelta, "k": kor, "vp": vp, "vm": vm, "fP": fP, "gP": gP,
-                                 "fM": fM, "gM": gM}))
+                                 "fM": fM, "gM": gM, "f": list(ofnr), "g": list(ofpr),
+                                 "fb": np.asarray(fb, dtype=float).reshape(-1, 2).tolist(),
+                                 "gb": np.asarray(gb, dtype=float).reshape(-1, 2).tolist()}))
     # --- the recorded _find_tube_radius calls ---------------------------------------------------------
     # the model's np.interp scans the table once per query: the cost of a line is quadratic in n
     budget = max(1, min(FWB_MAX_RADIUS_LINES, 30000 // max(1, n * n)))
@@ -1010,6 +1012,33 @@ def _fwb_lines(inp, desc, sig, pre, rec, ofnr, ofpr, fb, gb):
         roles.append(("displace", {"text": f"_displace_curve(x={x_}, y={y_}, v={v_}) -> ({ox_}, {oy_})", "mono": mono,
                                    "ox": ox_, "oy": oy_}))
     return lines, roles
+
+
+def _fwb_abscissa_ties(info, o):
+    """True iff every band entry that differs from the model's closed form by more than 1e-9 is evaluated within 1e-9 of a
+    knot of the (observed or exact) displaced curves"""
+    try:
+        f, g = np.asarray(info["f"], dtype=float), np.asarray(info["g"], dtype=float)
+        fb, gb = np.asarray(info["fb"], dtype=float), np.asarray(info["gb"], dtype=float)
+        d = float(info["odelta"])
+        k = float(info["k"])
+
+        def arr(key):
+            return np.array([float(Fraction(x)) for x in o[key].strip("[]").split(",") if x])
+        mflo, mfhi, mglo, mghi = arr("mflo"), arr("mfhi"), arr("mglo"), arr("mghi")
+        if not (len(mflo) == len(fb) == len(f) and len(mglo) == len(gb)):
+            return False
+        any_diff = False
+        for obs, mod, at, shifts in ((fb[:, 0], mflo, g, (g - d * k, g + d * k)), (fb[:, 1], mfhi, g, (g - d * k, g + d * k)),
+                                     (gb[:, 0], mglo, f, (f - d, f + d)), (gb[:, 1], mghi, f, (f - d, f + d))):
+            knots = np.concatenate(list(shifts) + [np.asarray(info[kk], dtype=float) for kk in ("fP", "fM", "gP", "gM")])
+            for i in np.nonzero(np.abs(obs - mod) > 1e-9)[0]:
+                any_diff = True
+                if float(np.min(np.abs(knots - at[i]))) > 1e-9:
+                    return False
+        return any_diff
+    except Exception:  # noqa: BLE001
+        return False
 
 
 def _fwb_judge(case, desc, sig, roles, outs):
@@ -1048,6 +1077,14 @@ def _fwb_judge(case, desc, sig, roles, outs):
                                  sig + "/fwb/model-error"))
             for cl_, (clause, msg) in names.items():
                 if ("spec." + cl_) in o and o["spec." + cl_] != "1":
+                    if cl_ == "closedform" and o.get("spec.bandrel") == "1" and _fwb_abscissa_ties(info, o):
+                        # every entry where the model's band differs is evaluated at an abscissa that coincides (to 1e-9)
+                        # with a knot of the displaced curve where it jumps: in exact arithmetic `x_j + delta` EQUALS the
+                        # evaluation point, in floating point it is rounded to one side - np.interp then reads the other
+                        # end of the jump.  The bands are the interpolations of the implementation's own displaced curves
+                        # (spec.bandrel holds); not a disagreement about the function
+                        case.skipped += 1
+                        continue
                     iss.append(Issue("DISAGREE", clause, f"{desc}: {msg}", f"{sig}/fwb/{cl_}"))
             md = common.pfrac(o["mdelta"]) if "mdelta" in o else None
             if "mdelta" in o and not common.close(info["odelta"], md, rel=tiny, abs_=tiny):
